@@ -90,7 +90,10 @@ VARIANTS += [
     ("C05-cross-offset", "C05", IV, "offset = cast(timedelta, cast(datetime, start).utcoffset())", "offset = cast(timedelta, cast(datetime, end).utcoffset())", "FLOW.delta"),
     ("C05-plus-offset", "C05", IV, "_end = cast(_T, (_end - offset).replace(tzinfo=None))", "_end = cast(_T, (_end + offset).replace(tzinfo=None))", "FLOW.delta"),
     ("C05-delta-reversed", "C05", IV, "delta: timedelta = _end - _start", "delta: timedelta = _start - _end", "FLOW.delta"),
-    ("C05-guard-eq", "C05", IV, "and _start.tzinfo is _end.tzinfo", "and _start.tzinfo == _end.tzinfo", "FLOW.guard"),
+    # removing each endpoint's own offset by hand is right for any pair; the guard only has to include the same-object case, which `==` does:
+    # behaviour-preserving (LENGTH.tabulated evaluates it so, with two distinct but equal fixed-offset tzinfo objects among the pairs)
+    ("C05-guard-eq-benign", "C05", IV, "and _start.tzinfo is _end.tzinfo", "and _start.tzinfo == _end.tzinfo", None),
+    ("C05-guard-never", "C05", IV, "and _start.tzinfo is _end.tzinfo", "and _start.tzinfo is None", "LENGTH.tabulated"),
     ("C05-in-hours-round", "C05", DUR, "        return int(self.total_hours())", "        return round(self.total_hours())", "TRUNC.in"),
     ("C05-total-days-hour", "C05", DUR, "        return self.total_seconds() / SECONDS_PER_DAY", "        return self.total_seconds() / SECONDS_PER_HOUR", "UNITS.total"),
     ("C05-swap-ge", "C05", IV, "        if absolute and _is_after(start, end):\n            end, start = start, end\n\n        _start = start", "        if absolute and _is_after(end, start):\n            end, start = start, end\n\n        _start = start", "FLOW.swap"),
